@@ -64,12 +64,29 @@ class _Renamer(ast.NodeTransformer):
         return node
 
 
+class _FlipCompare(ast.NodeTransformer):
+    """a < b -> b > a, a == b -> b == a (single-operator comparisons of side-effect-free operands)."""
+
+    FLIP = {ast.Lt: ast.Gt, ast.Gt: ast.Lt, ast.LtE: ast.GtE, ast.GtE: ast.LtE, ast.Eq: ast.Eq, ast.NotEq: ast.NotEq}
+
+    def visit_Compare(self, node: ast.Compare) -> ast.AST:
+        self.generic_visit(node)
+        if len(node.ops) == 1 and type(node.ops[0]) in self.FLIP:
+            pure = all(isinstance(x, (ast.Name, ast.Attribute, ast.Constant, ast.BinOp, ast.Subscript, ast.UnaryOp)) for x in (node.left, node.comparators[0]))
+            if pure:
+                return ast.copy_location(ast.Compare(left=node.comparators[0], ops=[self.FLIP[type(node.ops[0])]()], comparators=[node.left]), node)
+        return node
+
+
 def twin_sources(base: Model, kind: str) -> Dict[str, str]:
     out: Dict[str, str] = {}
     for m in base.modules.values():
         tree = ast.parse(m.src)
         if kind == "rename-locals":
             tree = _Renamer().visit(tree)
+            ast.fix_missing_locations(tree)
+        elif kind == "flip-comparisons":
+            tree = _FlipCompare().visit(tree)
             ast.fix_missing_locations(tree)
         out[m.relpath] = ast.unparse(tree)
     return out
